@@ -67,6 +67,7 @@ type cvxRoute struct {
 	Code     cvxCode  `json:"code"`
 	Tpl      cvxTpl   `json:"tpl"`
 	Admitted bool     `json:"admitted"`
+	GHost    bool     `json:"ghost"` // the route's host is a pattern (*.<key>.test) that several request hosts match
 }
 
 type cvxReq struct {
@@ -91,6 +92,14 @@ type cvxReq struct {
 	Peer      string            `json:"peer"`      // "v4" (default) | "v6": the client connects over 127.0.0.1 / ::1
 	CfgSpell  string            `json:"cfgspell"`  // "canon" (default) | "odd": spelling of the configured header names
 	AccessLog bool              `json:"accesslog"` // an access logger is configured
+	Hist      []cvxHistReq      `json:"hist"`      // C13 histories: the requests sent through the route one after the other
+	HostLabel string            `json:"hostlabel"` // first label of the requested host ("a" by default)
+}
+
+type cvxHistReq struct {
+	Host  string   `json:"host"`
+	Path  []string `json:"path"`
+	Query []string `json:"query"`
 }
 
 type cvxUp struct {
@@ -134,6 +143,11 @@ type cvxCase struct {
 	Hits int     `json:"hits"`
 	Out  cvxOut  `json:"out"`
 	Att  *cvxAtt `json:"att,omitempty"`
+	// C13 histories: the Location each request of c.hist must be answered with
+	Answers []cvxLoc `json:"answers,omitempty"`
+
+	parent *cvxCase // set on the per-request copies of a history case
+	step   int
 }
 
 // ---------------------------------------------------------------- concretisation of tokens
@@ -511,7 +525,11 @@ func cvxRouteKey(routes []cvxRoute) string {
 }
 
 func cvxHostName(key string, cand int, rhost string) string {
-	h := "a." + key + ".test"
+	return cvxHostNameL("a", key, cand, rhost)
+}
+
+func cvxHostNameL(label, key string, cand int, rhost string) string {
+	h := label + "." + key + ".test"
 	if cand > 0 {
 		h = "*." + key + ".test"
 	}
@@ -521,7 +539,13 @@ func cvxHostName(key string, cand int, rhost string) string {
 	return h
 }
 
-func cvxReqHost(cs *cvxCase) string { return cvxHostName(cvxRouteKey(cs.C.Routes), 0, cs.C.RHost) }
+func cvxReqHost(cs *cvxCase) string {
+	label := cs.C.HostLabel
+	if label == "" {
+		label = "a"
+	}
+	return cvxHostNameL(label, cvxRouteKey(cs.C.Routes), 0, cs.C.RHost)
+}
 
 // cvxTplText renders a redirect template; self / upstream stand for the request's own host and
 // the instrumented upstream.
@@ -550,6 +574,9 @@ func cvxRouteCmds(key, rhost string, routes []cvxRoute, upAddr string) []string 
 	var out []string
 	for j, r := range routes {
 		host := cvxHostName(key, j, rhost)
+		if r.GHost {
+			host = cvxHostName(key, 1, rhost) // a pattern: a.<key>.test, b.<key>.test, ... all match
+		}
 		self := cvxHostName(key, 0, rhost)
 		dst := "http://" + upAddr + "/"
 		if len(r.TQuery) > 0 {
